@@ -155,6 +155,9 @@ class CallModels:
                 return [(st, NONE)]
             eng.frame_violations.append(('store to attribute %s of %s' % (attr, b.cls), st.clone()))
             return [(st, NONE)]
+        if isinstance(b, VInstanceState):
+            eng.frame_violations.append(('store to attribute %s of instance state %s.%s' % (attr, b.cls, b.attr), st.clone()))
+            return [(st, NONE)]
         if isinstance(b, (VSub, VParam, VClass, VModule)):
             eng.frame_violations.append(('store to attribute %s of %s' % (attr, b.kind), st.clone()))
             return [(st, NONE)]
